@@ -283,7 +283,37 @@ Theorem roundtrip_any_history : forall uri_ok custom_ok decode, custom_law custo
   = Some (Ok [(s_type s, m)]).
 Proof.
   intros uri_ok custom_ok decode H sr s m p pre post Hin Hv Hd.
-  rewrite unserialize_stateless. f_equal. simpl. unfold unserialize_octets, unserialize_model.
-  unfold flag_check. rewrite Bool.eqb_reflx. simpl. rewrite Hd. simpl.
+  rewrite unserialize_stateless. f_equal. cbn [fst snd]. unfold unserialize_octets, unserialize_model, flag_check.
+  rewrite Bool.eqb_reflx. cbn [require]. rewrite Hd. cbn [unserialize_all].
   rewrite (unserialize1_marshal uri_ok custom_ok H s m Hin Hv). reflexivity.
+Qed.
+
+(* ---------- HELLO / WELCOME roles: accepted feature flags are bool or None ---------- *)
+Theorem check_roles_none_inv : forall uri_ok cfg od, check_roles uri_ok cfg od = None ->
+  exists rd, dget (s2l "roles") od = Some (VDict rd) /\ rd <> []
+             /\ forall kv, In kv rd -> check_role uri_ok cfg kv = None.
+Proof.
+  intros uri_ok cfg od H. unfold check_roles in H.
+  destruct (dget (s2l "roles") od) as [r|]; [|discriminate].
+  apply andthen_none_inv in H. destruct H as [H1 H].
+  destruct r; simpl in H1; try discriminate.
+  apply andthen_none_inv in H. destruct H as [H2 H3]. apply require_none in H2.
+  exists d. split; [reflexivity|]. split; [destruct d; [discriminate|discriminate]|].
+  intros kv Hin. eapply chk_all_none_inv; eauto.
+Qed.
+
+Theorem role_features_strict : forall uri_ok cfg kv name feats d fd f x,
+  check_role uri_ok cfg kv = None -> fst kv = KS name -> find_role cfg name = Some feats ->
+  snd kv = VDict d -> dget (s2l "features") d = Some (VDict fd) ->
+  In f feats -> dget (s2l f) fd = Some x ->
+  x = VNull \/ exists b, x = VBool b.
+Proof.
+  intros uri_ok cfg [k v] name feats d fd f x H Hk Hf Hv Hd Hin Hx. simpl in Hk, Hv. subst k v.
+  unfold check_role in H. cbn [fst snd] in H. rewrite Hf in H.
+  apply andthen_none_inv in H. destruct H as [_ H]. rewrite Hd in H.
+  apply andthen_none_inv in H. destruct H as [_ H].
+  apply andthen_none_inv in H. destruct H as [_ H].
+  assert (Ho : In (feature_spec f) (role_specs feats)) by (unfold role_specs; apply in_map; exact Hin).
+  pose proof (check_opts_none_in uri_ok _ _ H (feature_spec f) x Ho Hx) as K. simpl in K.
+  apply require_none in K. destruct x; simpl in K; try discriminate; eauto.
 Qed.
